@@ -32,7 +32,7 @@ def find_adapters(F):
             b = f.built
             if f.kind == "fn" and diff_switches(b) and b.arg_count == 4:
                 a.translator = f
-            if f.kind == "assoc" and wakers.cx_param(b) is not None and any(wakers.is_poll_call(t) and not wakers.is_delegation(F, f, t) for _, t in b.calls()):
+            if f.kind == "assoc" and wakers.cx_param(b) is not None and any(wakers.is_poll_call(t) for _, t in b.calls()):
                 a.poll = f
         if a.poll is not None:
             pb = a.poll.built
